@@ -75,6 +75,28 @@ def replay_formfeed(ctx):
             ctx.count("known_finding_no_longer_reproduces")
 
 
+def replay_getcycles(ctx):
+    """known finding K-C08-getcycles: k relations, each the union of a direct assignment and all the others"""
+    for k in ctx.known:
+        if k["fields"].get("id") != "K-C08-getcycles":
+            continue
+        w = json.load(open(os.path.join(core.VERIF, "findings", "K-C08-getcycles.json")))
+        times = []
+        for n in w["sizes"]:
+            rels = ["r%d" % i for i in range(n)]
+            rl = [[S(r), [4, [1, 1]] + [[2, S(x)] for x in rels if x != r]] for r in rels]
+            ml = [[S(r), [[[S("user"), [0], []]], [], []]] for r in rels]
+            m = [S("1.1"), [[S("user"), [], []], [S("doc"), rl, [[ml, [], []]]]], []]
+            r = ctx.impl([{"op": "pgraph", "m": m, "labels": [], "repeat": 1}], deadline_ms=120000)[0]
+            times.append(120000 if r.get("timeout") else r.get("ms", 0))
+        ctx.extra["getcycles_ms"] = dict(zip(map(str, w["sizes"]), times))
+        # exponential growth: one more relation multiplies the time by about nine
+        if times[-1] >= 4 * max(1, times[-2]) and times[-1] > 300:
+            ctx.known_finding("id=K-C08-getcycles " + w["what"] + " (measured ms for %s relations: %s)" % (w["sizes"], times))
+        else:
+            ctx.count("known_finding_no_longer_reproduces")
+
+
 def run(ctx):
     ctx.rule = ("byte-level and token-level mutations of every DSL text under tests/data fed to TransformDSLToProto / "
                 "TransformModularDSLToProto / the lexer, as module files to the merge (with conflicts written in non-canonical "
@@ -86,6 +108,7 @@ def run(ctx):
                        "the model names the panic sites it knows; PANIC is an observable of the correspondence in every other check as well"]
     rng = ctx.rng
     replay_formfeed(ctx)
+    replay_getcycles(ctx)
     corpus = dslgen.corpus_dsl()
     n = 1200 if ctx.tier == "quick" else 40000
     docs = []
